@@ -1641,17 +1641,6 @@ def gen_cases(tier, rng, n):
 # the check
 # ------------------------------------------------------------------------------------------------
 
-_NEG_OFFSET = re.compile(r"\d\d:\d\d(:\d\d)?(\.\d+)?\s?-\d\d:?\d\d")
-
-
-def conv_stale(j) -> bool:
-    """inputs on which lean/Utv/Model/Conv.lean (owned by C12, being re-synchronised) still mirrors to_datetime as it was
-    before the repairs 5af3e09 (negative UTC offsets): excluded from the comparison, not from the oracle"""
-    acc = []
-    _walk_json_values(j, acc)
-    return any(isinstance(x, str) and _NEG_OFFSET.search(x) for x in acc)
-
-
 def _enum_members(j, acc=None):
     acc = [] if acc is None else acc
     if isinstance(j, dict):
@@ -1825,8 +1814,8 @@ class C01(Check):
                 st["declaration_rejected"] += 1
             elif mo is None:
                 st["unsupported"] += 1
-            elif "unmodelled" in mo or "diverge" in mo:
-                w = str(mo.get("unmodelled", "diverge (Conv.lean before repair 8de0bd0)"))[:60]
+            elif "unmodelled" in mo:
+                w = str(mo.get("unmodelled", "diverge"))[:60]
                 st["unmodelled"][w] = st["unmodelled"].get(w, 0) + 1
             else:
                 st["compared"] += 1
@@ -1837,13 +1826,13 @@ class C01(Check):
     def compare(self, case, io, mo):
         if "decl" in io or "unsupported" in io or mo is None:
             return None
-        if conv_stale(case["value"]) or nested_mixin_member(case):
+        if nested_mixin_member(case):
             return None
         if io.get("hang") or io.get("crash"):
             return "worker hang / crash"
         if "driver-error" in mo:
             return "driver error: " + str(mo["driver-error"])[:200]
-        if "unmodelled" in mo or "diverge" in mo:
+        if "unmodelled" in mo:
             return None
         a, b = io.get("out"), io.get("out_collect")
         for key, o in (("out", a), ("out_collect", b)):
@@ -1857,9 +1846,8 @@ class C01(Check):
                 if canon(o["ok"]) != canon(mo["ok"]) and not set_equal(o["ok"], mo["ok"], case):
                     return f"different values ({key})"
             elif "diverge" in mo:
-                # Conv.lean (owned by C12, being re-synchronised) still mirrors the timestamp loop of to_datetime as it was
-                # before the repair 8de0bd0 (non-finite timestamps are rejected now instead of looping): no verdict
-                return None
+                if "hang" not in o:
+                    return f"model diverges, implementation ({key}) {_out_class(o)}"
             else:
                 if "ok" in o:
                     return f"model fails, implementation ({key}) returns a value"
